@@ -888,6 +888,41 @@ type fpDialCfg struct {
 	Suppress  []uint64
 	Randomize bool
 	IDsBefore bool // call TransportParameterIDs() before the dial
+	Emit      bool // print this dial as a correspondence case (FDial) for the model replay
+}
+
+// fpSpecExtIDs: the extension ids the spec's extension objects stand for, in order. uTLS is the
+// oracle for "which id does this object serialise as" (its own Read writes the id first); the
+// objects that cannot be serialised before ApplyPreset are named here: GREASE placeholder
+// (0x0a0a: the model folds every GREASE value onto it), padding (21, may be omitted by
+// uTLS when the padding rule asks for none), GREASE ECH, quic_transport_parameters (its Len()
+// would cache bytes in the spec's object).
+func fpSpecExtIDs(chs *tls.ClientHelloSpec) (ids []uint64) {
+	for _, e := range chs.Extensions {
+		switch x := e.(type) {
+		case *tls.UtlsGREASEExtension:
+			ids = append(ids, 0x0a0a)
+		case *tls.UtlsPaddingExtension:
+			ids = append(ids, 21)
+		case *tls.QUICTransportParametersExtension:
+			ids = append(ids, 57)
+		case *tls.GREASEEncryptedClientHelloExtension:
+			ids = append(ids, 0xfe0d)
+		case *tls.SNIExtension: // empty until ApplyPreset fills in the server name
+			ids = append(ids, 0)
+		default:
+			id := uint64(0xffff)
+			func() {
+				defer func() { _ = recover() }()
+				b := make([]byte, x.Len()+8)
+				if n, _ := x.Read(b); n >= 2 {
+					id = uint64(b[0])<<8 | uint64(b[1])
+				}
+			}()
+			ids = append(ids, id)
+		}
+	}
+	return ids
 }
 
 func (c fpDialCfg) String() string {
@@ -920,6 +955,12 @@ func fpDialOnce(rep *fpReporter, sp *quic.QUICSpec, c fpDialCfg, dialNo int) *fp
 		return nil
 	}
 	pre := fpSnapshot(ext)
+	specTerm := ""
+	var specExts []uint64
+	if c.Emit {
+		specTerm = uspecdialSpecTerm(ext.TransportParameters)
+		specExts = fpSpecExtIDs(sp.ClientHelloSpec)
+	}
 	var idsBefore []uint64
 	if c.IDsBefore {
 		idsBefore = sp.TransportParameterIDs()
@@ -934,8 +975,12 @@ func fpDialOnce(rep *fpReporter, sp *quic.QUICSpec, c fpDialCfg, dialNo int) *fp
 		return nil
 	}
 	// key shares first, from a decoding that does not depend on clienthellod's ClientHello parser
+	var wireKeys []fpKeyShare
 	if ho, herr := fpHelloOnly(fl); herr == nil && specKeys != nil {
 		wk, kerr := fpWireKeyShares(ho.Hello)
+		if kerr == nil {
+			wireKeys = wk
+		}
 		d := ""
 		if kerr != nil {
 			d = "key_share extension does not parse: " + kerr.Error()
@@ -980,12 +1025,35 @@ func fpDialOnce(rep *fpReporter, sp *quic.QUICSpec, c fpDialCfg, dialNo int) *fp
 	if after := sp.TransportParameterIDs(); !fpEqU64(after, canon) {
 		rep.fail(kw+"ids-canonical", fmt.Sprintf("TransportParameterIDs() after the dial = %v, canonicalised wire = %v", after, canon), detail())
 	}
+	if c.Emit { // the dial as a correspondence case: spec as written -> what the wire shows (raw GREASE values)
+		var kt, wkt, wet []string
+		for _, k := range specKeys {
+			kt = append(kt, u.Pair(u.Z(int64(k.Group)), u.Hex(k.Data)))
+		}
+		for i, k := range wireKeys {
+			data := []byte{}
+			if i < len(specKeys) && len(specKeys[i].Data) > 0 {
+				data = k.Data
+			}
+			wkt = append(wkt, u.Pair(u.Z(int64(k.Group)), u.Z(int64(len(k.Data))), u.Hex(data)))
+		}
+		for _, e := range o.Hello.Exts {
+			wet = append(wet, u.Z(int64(e.ID)))
+		}
+		wire := make([]fpParam, len(o.Wire))
+		for i, p := range o.Wire {
+			wire[i] = fpParam{ID: p.ID, Val: uspecdialMask(p.ID, p.Val)}
+		}
+		fmt.Fprintf(rep.w, "CASE 1 %s\n", u.App("FDial", specTerm, uZUList(c.Suppress), u.B(c.Randomize), u.Hex(o.SCID),
+			u.List(kt), uZUList(specExts), uspecdialWireTerm(wire), u.List(wkt), u.List(wet)))
+	}
 	return o
 }
 
 func runSimFingerprint(w *bufio.Writer, seed uint64, n int, args []string) {
 	r := u.NewRng(seed)
 	rep := &fpReporter{w: w, seen: map[string]int{}}
+	dist := map[string]int{}
 	only := ""
 	for _, a := range args {
 		if strings.HasPrefix(a, "only=") {
@@ -1017,7 +1085,7 @@ func runSimFingerprint(w *bufio.Writer, seed uint64, n int, args []string) {
 				rep.fail(k+"capture", err.Error(), name)
 				break
 			}
-			c := fpDialCfg{Name: name, IDsBefore: r.Chance(1, 3)}
+			c := fpDialCfg{Name: name, IDsBefore: r.Chance(1, 3), Emit: i%4 == 0}
 			o := fpDialOnce(rep, sp, c, 0)
 			nCases++
 			if o == nil {
@@ -1055,7 +1123,7 @@ func runSimFingerprint(w *bufio.Writer, seed uint64, n int, args []string) {
 		}
 		sort.Strings(idList)
 		fmt.Fprintf(w, "INFO\t%s: %d dials, recorded=%s, ids: %s; frame-type sets %v; %d distinct parameter orders; %d ClientHellos compared with uTLS's marshalling\n", name, n, id.Fingerprint, strings.Join(idList, " ; "), frameSets, len(orders), nOracle)
-		fmt.Fprintf(w, "CASE 1 fingerprint quicid=%s dials=%d seed=%d\n", name, n, seed)
+		fmt.Fprintf(w, "INFO\tfingerprint quicid=%s dials=%d seed=%d\n", name, n, seed)
 		if len(ids) > 1 {
 			rep.fail(k+"id-unstable", fmt.Sprintf("the reference fingerprint id is not the same on every dial: %d different ids in %d dials", len(ids), n), strings.Join(idList, " ; "))
 		}
@@ -1108,9 +1176,16 @@ func runSimFingerprint(w *bufio.Writer, seed uint64, n int, args []string) {
 			}
 			if kse := fpSpecKeyShareExt(sp); kse != nil && i%3 == 2 {
 				fpAddKeyShareData(r, kse) // key shares that carry Data (GREASE share, supplied public key)
+				if r.Bool() { // GREASE placeholder extensions, Chrome style: first, and before the last
+					chs := sp.ClientHelloSpec
+					n := len(chs.Extensions)
+					exts := append([]tls.TLSExtension{&tls.UtlsGREASEExtension{}}, chs.Extensions[:n-1]...)
+					exts = append(exts, &tls.UtlsGREASEExtension{Body: []byte{0}}, chs.Extensions[n-1])
+					chs.Extensions = exts
+				}
 			}
 			pre := fpSnapshot(ext)
-			c := fpDialCfg{Name: name, Randomize: r.Chance(2, 3), IDsBefore: r.Bool()}
+			c := fpDialCfg{Name: name, Randomize: r.Chance(2, 3), IDsBefore: r.Bool(), Emit: true}
 			// suppression subset: ids of the list (never initial_source_connection_id: a
 			// server is not needed here, but keep the flight well-formed), 27, unknown ids
 			for _, p := range pre {
@@ -1169,7 +1244,7 @@ func runSimFingerprint(w *bufio.Writer, seed uint64, n int, args []string) {
 					}
 				}
 			}
-			fmt.Fprintf(w, "CASE 1 derived %s redials=%d\n", c.String(), redials)
+			dist["derived redials="+fmt.Sprint(redials)]++
 			if c.Randomize && redials == 3 && nparams >= 6 && len(seenOrders) == 1 {
 				rep.fail(k+"reuse-order", "three dials of one spec with RandomizeTransportParameters sent the same parameter order (6 or more parameters)", c.String())
 			}
@@ -1179,6 +1254,9 @@ func runSimFingerprint(w *bufio.Writer, seed uint64, n int, args []string) {
 		}
 	}
 	fpDistribution(w, r, rep, n)
+	for k, v := range dist {
+		fmt.Fprintf(w, "DIST\t%s\t%d\n", k, v)
+	}
 	fmt.Fprintf(w, "DIST\tdials\t%d\n", nCases)
 }
 
@@ -1199,7 +1277,7 @@ func fpDistribution(w *bufio.Writer, r *u.Rng, rep *fpReporter, n int) {
 		}
 		fpSortSpec(fpSpecExt(sp))
 		pre := fpSnapshot(fpSpecExt(sp))
-		c := fpDialCfg{Name: name, Randomize: true}
+		c := fpDialCfg{Name: name, Randomize: true, Emit: i%3 == 0}
 		for _, p := range pre {
 			kept := false
 			for _, id := range keep {
@@ -1221,7 +1299,7 @@ func fpDistribution(w *bufio.Writer, r *u.Rng, rep *fpReporter, n int) {
 		}
 		counts[strings.Join(ord, ",")]++
 	}
-	fmt.Fprintf(w, "CASE 1 distribution quicid=%s keep=%v dials=%d\n", name, keep, dials)
+	fmt.Fprintf(w, "INFO\tdistribution quicid=%s keep=%v dials=%d\n", name, keep, dials)
 	if len(counts) != 6 {
 		rep.fail("simfingerprint/perm-coverage", fmt.Sprintf("only %d of 6 orders of a 3-parameter list seen in %d dials", len(counts), dials), fmt.Sprint(counts))
 	}
